@@ -379,6 +379,45 @@ def check(fx, rep, tier):
     check_width_table(mm, rep)
     check_sized_usage_widths(fx, rep)
     check_transparent_constructors(fx, rep, "R15.2")
+    # when the resolved types are written out, a type met twice inside one slot's type is reported as an infinite type; that cut
+    # may only apply to types that contain other types - a conflict (or a word) met twice is still a conflict (or that word)
+    from .c01 import verify_seen_cut
+
+    cg15 = F.CallGraph(fx)
+    conv = next((b_["def"] for b_ in fx.fn_bodies() if b_.get("hir") and "AbiValue" in (fx.fns.get(b_["def"], {}).get("output") or "") and any(cg15.resolve_local(c) and b_["def"] in cg15.resolve_local(c) for c, _ in F.calls(b_["hir"]["value"]))), None)
+    if rep.anchor("R15.3", conv is not None, "the recursive conversion of resolved type expressions into reported types"):
+        ok_cut, why_cut, smp_cut = verify_seen_cut(fx, cg15, {conv})
+        over = smp_cut.get("over_accepted", []) if isinstance(smp_cut, dict) else []
+        rep.oblige(not over, "R15.3", "infinite-only-for-composites", "-", f"the infinite-type cut of `{conv}` also applies to {over}, which contain no other type: contradictory (or plain) evidence that occurs twice inside one slot's type is reported as an infinite type instead of the conflict (or the type) it is", sample={"rule": "R15.3", "cut_applies_to": smp_cut.get("guard_accepts") if isinstance(smp_cut, dict) else None})
+    # "a known width is kept": where the word arm of that conversion reports a width in other units (bits -> bytes), the division
+    # is exact - it sits under a `w % UNIT == 0` test; otherwise 12 bits are reported as one byte
+    if conv is not None:
+        cb = fx.body(conv)
+        n_div = 0
+        for m, _ in F.exprs(cb["hir"]["value"], "Match"):
+            for a in m["arms"]:
+                pv = F.pat_variants(a["pat"])
+                if not pv or {v for _, v in pv} != {"Word"}:
+                    continue
+                for node, nps in F.walk(a["body"]):
+                    if node.get("k") != "Struct" or not str(node.get("adt", "")).endswith("abi::AbiType"):
+                        continue
+                    for f in node["fields"]:
+                        if f["field"] not in ("length", "size"):
+                            continue
+                        divs = [x for x, _ in F.walk(f["e"]) if (x.get("k") == "Binary" and x.get("op") in ("Div", "Shr")) or (x.get("k") == "MethodCall" and x["method"] in ("div_euclid", "checked_div", "wrapping_div", "div_floor"))]
+                        if not divs:
+                            continue
+                        n_div += 1
+                        exact = False
+                        for anc, key in nps:
+                            if isinstance(anc, dict) and "pat" in anc and "body" in anc and anc.get("guard") is not None:
+                                if any(x.get("k") == "Binary" and x.get("op") == "Rem" for x, _ in F.walk(anc["guard"])) and any(x.get("k") == "Binary" and x.get("op") == "Eq" for x, _ in F.walk(anc["guard"])):
+                                    exact = True
+                            if isinstance(anc, dict) and anc.get("k") == "If" and key == "then" and any(x.get("k") == "Binary" and x.get("op") == "Rem" for x, _ in F.walk(anc["cond"])):
+                                exact = True
+                        rep.oblige(exact, "R15.2", f"width-kept:{node.get('variant')}#{n_div}", F.loc(node["span"]), f"the word arm of `{conv}` reports `{node.get('variant')}.{f['field']}` through a division that is not under a `% .. == 0` test: a known width that is not a whole number of units is truncated, so the known width is not kept", sample={"rule": "R15.2", "type": node.get("variant"), "exact_division": exact})
+        rep.floor("R15.2", n_div, 1, "unit conversions of a known width in the word arm of the type conversion")
     # a sized word pushed down to a span whose size it does not have is a contradiction accepted silently (shared with C12)
     from .c12 import check_span_judgement_width
 
